@@ -142,7 +142,7 @@ class Module:
         self.name = os.path.relpath(path, PKG)[:-3].replace(os.sep, '.')
         with open(path, encoding='utf-8') as f:
             self.text = f.read()
-        self.tree = unenum_numbers(unalias_callees(unwalrus(ast.parse(self.text, filename=path))))
+        self.tree = undataclass(unenum_numbers(unalias_callees(unwalrus(ast.parse(self.text, filename=path)))))
         set_parents(self.tree)
         self.funcs = {}      # qual -> Func
         self.classes = {}    # name -> ClassDef
@@ -500,6 +500,58 @@ def _first_walrus(test):
     if isinstance(test, ast.BoolOp):
         return _first_walrus(test.values[0])
     return None
+
+
+def undataclass(tree):
+    """`@dataclasses.dataclass class R: a: T; b: T = <constant>`: the class gets the `__init__` (one parameter per annotated field, in
+    order, stored to the attribute of that name) and the `__eq__` (same class and equal field tuples, else NotImplemented) the decorator
+    generates, written out, unless the class body defines them.  Classes with `field(...)` defaults, `InitVar` / `ClassVar` annotations,
+    `__post_init__`, decorator arguments other than frozen / slots / eq=True / repr / order=False / kw_only=False, or dataclass bases
+    are left alone (an object of such a class is outside the evaluator's vocabulary)."""
+    for st in ast.walk(tree):
+        if not isinstance(st, ast.ClassDef):
+            continue
+        deco = [d for d in st.decorator_list if norm(d.func if isinstance(d, ast.Call) else d) in ('dataclasses.dataclass', 'dataclass')]
+        if len(deco) != 1 or st.bases:
+            continue
+        d = deco[0]
+        if isinstance(d, ast.Call) and (d.args or not all(
+                isinstance(k.value, ast.Constant) and (k.arg in ('frozen', 'slots', 'repr', 'unsafe_hash') or (k.arg == 'eq' and k.value.value is True)
+                                                       or (k.arg in ('order', 'kw_only', 'match_args') and k.value.value is False)) for k in d.keywords)):
+            continue
+        fields, ok = [], True
+        for b in st.body:
+            if isinstance(b, ast.AnnAssign):
+                if not isinstance(b.target, ast.Name) or 'ClassVar' in norm(b.annotation) or 'InitVar' in norm(b.annotation) \
+                        or (b.value is not None and not isinstance(b.value, ast.Constant)):
+                    ok = False
+                else:
+                    fields.append((b.target.id, b.value))
+            elif isinstance(b, ast.FunctionDef) and b.name == '__post_init__':
+                ok = False
+        seen_default = False
+        for _n, v in fields:
+            if v is None and seen_default:
+                ok = False
+            seen_default = seen_default or v is not None
+        if not ok or not fields:
+            continue
+        have = {b.name for b in st.body if isinstance(b, ast.FunctionDef)}
+        src = []
+        if '__init__' not in have:
+            src.append('def __init__(self, %s):\n%s' % (', '.join(n if v is None else '%s=%s' % (n, norm(v)) for n, v in fields),
+                                                        ''.join('    self.%s = %s\n' % (n, n) for n, _v in fields)))
+        if '__eq__' not in have:
+            tup = lambda o: '(%s,)' % ', '.join('%s.%s' % (o, n) for n, _v in fields)      # noqa: E731
+            src.append('def __eq__(self, other):\n    if other.__class__ is self.__class__:\n        return %s == %s\n    return NotImplemented\n' % (tup('self'), tup('other')))
+        for text in src:
+            fn = ast.parse(text).body[0]
+            for n in ast.walk(fn):
+                if hasattr(n, 'lineno'):
+                    n.lineno = n.end_lineno = st.lineno
+                    n.col_offset = n.end_col_offset = 0
+            st.body.append(fn)
+    return tree
 
 
 def unenum_numbers(tree):
